@@ -10,7 +10,7 @@ CHECKS = {
          "explicit-state exploration of delivery histories on the real Chain (snapshot DFS with fingerprint memoisation, invalid blocks as probes at every state) against a reference ledger",
          "c02",
          "Every parent-before-child delivery history of fork-tree universes (same coinbase spent on both forks, output created and spent on a fork that loses then wins, the same commitment on both forks, re-created commitments, reorgs in both directions) is executed on the real Chain; at every reached state every reference-invalid block (double spend across blocks and inside one block, never-created and fork-foreign inputs, duplicate of an unspent commitment) is delivered as a probe. After every event process_block's verdict must equal the reference ledger's, and get_unspent of every commitment of the universe (position and height), unspent_outputs_by_pmmr_index and validate_inputs must equal the replay of the winning chain; closing and reopening must reproduce the state. Exhaustive over the stated universes and orders.",
-         "Reference ledger written from the property text (src/ledger.rs); orphan orders are C03, compaction is C08; universes up to 18 blocks.",
+         "Reference ledger written from the property text (src/ledger.rs); orphan orders are C03; the compaction part runs a 90-block chain (head block spends an old output whose MMR sibling is spent) through every order of {compact, reopen, next block, 3-block fork that reorgs the head out}.",
          "DESIGN.md §4 C02"),
  "C03": ("model_checking",
          "stateless exploration (replay DFS with memoisation) of every delivery order over every small fork tree x difficulty vector on the real Chain, fork-choice model as oracle",
@@ -77,7 +77,13 @@ CHECKS = {
          "c07",
          "Every node position and MMR size up to the bound (65 536 quick / 1 048 576 thorough nodes), every (size,pos) of family_branch, every leaf count up to 2 048 / 16 384 (push, root, peaks, validate, read-only views), every leaf of every MMR up to 96 / 320 leaves x every single corruption of element, position and path, all executed on the real code and compared with a forest built by definition with its own blake2b hashing. Exhaustive within these bounds; nothing sampled.",
          "Trusts blake2-rfc; positions >= 2^63 outside the domain; proof.mmr_size not mutated (excluded by the property).",
-         "DESIGN.md §4 C07"), "C17": ("model_checking",
+         "DESIGN.md §4 C07"), "C15": ("model_checking",
+         "explicit-state exploration (DFS over directory snapshots) of the real TxHashSet / Extension / BitmapAccumulator through the extension seam with synthetic multi-chunk blocks, against a from-scratch accumulator and an independent chunk-MMR reference",
+         "c15",
+         "Histories up to depth 3 (quick) / 4 (thorough) over {apply a block with k new outputs (600, 1024 / 1, 600, 1023, 1025) and a spend selection (none, first/last of chunk 0, first of chunk 1, every other leaf of the oldest chunk, all of the last partial chunk, all of the oldest chunk, all of chunk 1) on the head or on any ancestor of the head (rewind across chunk boundaries and re-apply), a rolled-back unit, reopen}: after every step and after reopening, the committed bitmap root must equal an accumulator initialised from scratch over the reference unspent set and an independently hashed chunk MMR, and the accumulator's bit set must equal the reference unspent set. Output counts span up to 4 chunks.",
+         "The seam replicates pipe::rewind_and_apply_fork minus the validations synthetic blocks cannot pass (Testnet limits so that 1000-output blocks can be read back). The 'tampered output_root is rejected' clause is exercised by C06 (late:output_root-flip probe at every state).",
+         "DESIGN.md §4 C15"),
+ "C17": ("model_checking",
          "controlled-scheduler (CHESS-style) exploration of the real Chain with real OS threads: every schedule up to a preemption bound, lock state mirrored for deadlock detection",
          "c17",
          "Under --cfg grin_verif every util::RwLock acquisition/release, the LMDB writer lock and the store's polling loops report to a scheduler owned by the harness: exactly one registered thread runs at a time, a thread whose request cannot be granted is disabled (a parked writer blocks new readers, as in parking_lot), 'no thread enabled' = deadlock. Every schedule with <= 1 preemption (quick; <= 2 thorough) of harnesses of 2-3 threads x 1-3 operations chosen to collide (competing fork blocks + reader, header-first + block + reader, block + validate_tx + get_unspent, miner template + block; thorough adds reorg + readers, validate + header, compact + block + reader, segmenter + block) runs on a fresh copy of a prepared chain. Oracles: no deadlock/livelock/panic, operations return only what a correct node may return, a reported head names a stored block, observed total difficulty never decreases, the final best-chain state is one a sequential order of the operations produces, validate(false) passes.",
